@@ -362,6 +362,13 @@ func (ex *explorer) worker(w int) {
 		for k, v := range sym.covers {
 			covers[k] += int64(v)
 		}
+		if TwinLabel != "" {
+			for _, v := range sym.viol {
+				if v.Label == TwinLabel {
+					atomic.StoreInt32(&ex.stop, 1) // the twin has been seen violated: enough
+				}
+			}
+		}
 		nviol = append(nviol, sym.viol...)
 		sym.viol = nil
 		// alternatives
